@@ -158,6 +158,15 @@ ExclAcc(rules, flags, s, i, acc) ==
                IF RM(Compile(rules[i].val), s)
                THEN [ex |-> ~rules[i].neg, dom |-> (~rules[i].neg) /\ ~flags[i]] ELSE acc)
 Excludes(rs, s) == ExclAcc(rs.rules, rs.flags, s, 1, [ex |-> FALSE, dom |-> FALSE])
+\* Ruleset.ExcludesDir(string) (fix: directory entries): a rule selects a directory if it matches the path
+\* as given or in its directory form
+RECURSIVE ExclDirAcc(_,_,_,_,_)
+ExclDirAcc(rules, flags, s, i, acc) ==
+  IF i > Len(rules) THEN acc
+  ELSE ExclDirAcc(rules, flags, s, i + 1,
+               IF RM(Compile(rules[i].val), s) \/ RM(Compile(rules[i].val), s \o <<"/">>)
+               THEN [ex |-> ~rules[i].neg, dom |-> (~rules[i].neg) /\ ~flags[i]] ELSE acc)
+ExcludesDir(rs, s) == ExclDirAcc(rs.rules, rs.flags, s, 1, [ex |-> FALSE, dom |-> FALSE])
 NoRules == [rules |-> <<>>, flags |-> <<>>]      \* ignore processing off: nil ruleset
 
 \* path (sequence of names) as the string the code matches
